@@ -97,9 +97,28 @@ type vcReplayer struct {
 }
 
 // memOf reads the algorithm's memory of the peers that have the bundle called name already (as peer names).
+// innerAlgo: the algorithm that keeps the memory (the one the sensor-mule wrapper wraps, if there is a wrapper).
+func (r *vcReplayer) innerAlgo() Algorithm {
+	if snm, ok := r.w.c.routing.(*SensorNetworkMuleRouting); ok {
+		return snm.algorithm
+	}
+	return r.w.c.routing
+}
+
+// innerName: Core.tla's name of that algorithm.
+func (r *vcReplayer) innerName() string {
+	switch r.cfg.Algo {
+	case "mule":
+		return "epidemic"
+	case "mule_spray":
+		return "spray"
+	}
+	return r.cfg.Algo
+}
+
 func (r *vcReplayer) memOf(name string) (peers []string, has bool) {
 	var eids []bpv7.EndpointID
-	switch a := r.w.c.routing.(type) {
+	switch a := r.innerAlgo().(type) {
 	case *SprayAndWait, *BinarySpray:
 		var data map[bpv7.BundleID]sprayMetaData
 		var mu *sync.RWMutex
@@ -125,10 +144,7 @@ func (r *vcReplayer) memOf(name string) (peers []string, has bool) {
 			return nil, false
 		}
 	default:
-		key := "routing/" + r.cfg.Algo + "/sent"
-		if r.cfg.Algo == "mule" {
-			key = "routing/epidemic/sent"
-		}
+		key := "routing/" + r.innerName() + "/sent"
 		found, _, seq, _ := r.w.lookup(name)
 		if !found {
 			return nil, false
@@ -158,7 +174,7 @@ func (r *vcReplayer) memOf(name string) (peers []string, has bool) {
 func (r *vcReplayer) copiesOf(name string) (int, bool) {
 	var data map[bpv7.BundleID]sprayMetaData
 	var mu *sync.RWMutex
-	switch a := r.w.c.routing.(type) {
+	switch a := r.innerAlgo().(type) {
 	case *SprayAndWait:
 		data, mu = a.bundleData, &a.dataMutex
 	case *BinarySpray:
@@ -233,7 +249,7 @@ func (r *vcReplayer) rel(kind, b string) string {
 	if strings.HasPrefix(r.cfg.Prop, "G-") {
 		return r.cfg.Prop
 	}
-	algo := r.cfg.Algo
+	algo := r.innerName()
 	spray := algo == "spray" || algo == "binary_spray"
 	a := r.cfg.Cat[b]
 	refusable := (len(a.Hop) == 2 && a.Hop[1]+1 > a.Hop[0]) || (a.Life == "short" && r.late) || (a.HasUnk && vcHas(a.UnkF, "delete"))
@@ -699,6 +715,10 @@ func (r *vcReplayer) run() string {
 				if len(expT[b]) > 0 && !expSend[b+">"+expT[b][0]].Direct && vcSet(ch) == vcSet(obsT[b]) {
 					adm = true
 				}
+				// sensor-mule around spray: the wrapped algorithm may have picked sensors only, which leaves no transmission at all
+				if r.cfg.Algo == "mule_spray" && len(expT[b]) == 0 && len(ch) > 0 && vcSet(ch) == vcSet(obsT[b]) {
+					adm = true
+				}
 			}
 			if adm {
 				twin = true
@@ -797,7 +817,7 @@ func (r *vcReplayer) run() string {
 			}
 		}
 		// --- C18: the algorithm's copy counter
-		if r.cfg.Algo == "spray" || r.cfg.Algo == "binary_spray" {
+		if r.innerName() == "spray" || r.innerName() == "binary_spray" {
 			for name, want := range s.Exp.Copies {
 				got, has := r.copiesOf(name)
 				if !has && r.cfg.Cat[name].Tsg > 0 {
